@@ -666,12 +666,23 @@ class Generator:
         return self._ws_regex(old).sub(lambda m: new, text)
 
     def _apply_insert(self, c, body, rules, it):
-        m = re.match(r"^//@(before|afterstmt|after)\s*<<<(.*?)>>>\|\s?(.*)$", c, re.S)
+        m = re.match(r"^//@(before|afterstmt|after)(\?)?(?:#(\d+)/(\d+))?\s*<<<(.*?)>>>\|\s?(.*)$", c, re.S)
         if not m:
             raise AnchorLost("bad insert directive: %s" % c)
-        where, anchor, ins = m.groups()
+        where, opt, kth, ofn, anchor, ins = m.groups()
         rx = self._ws_regex(anchor)
         ms = list(rx.finditer(body))
+        if kth:
+            # `//@before#2/3 <<<a>>>|`: the second of exactly three occurrences of a short anchor (statements that
+            # recur in a function; a longer anchor would tie the proof step to the order of the neighbouring statements)
+            if len(ms) != int(ofn):
+                raise AnchorLost("insert anchor occurs %d times (expected %s) in %s: %s" % (len(ms), ofn, it.name, anchor[:60]))
+            ms = [ms[int(kth) - 1]]
+        if opt and len(ms) == 0:
+            # `//@before? ...`: ghost bookkeeping attached to a statement that a tree need not have (the obligations
+            # that read the ghost decide what its absence means); nothing is inserted
+            rules.append("optional insert skipped (anchor absent): %s" % anchor[:60])
+            return body
         if len(ms) != 1:
             raise AnchorLost("insert anchor occurs %d times in %s: %s" % (len(ms), it.name, anchor[:60]))
         if where == "afterstmt":
